@@ -1065,16 +1065,18 @@ def k3_records(ctx):
         for i, sl in owner.items():
             tok = f"T{i}"
             holders = [k for k, u in enumerate(units) if tok in u[1]]
-            ctx.require(holders == [sl - 1], "slide-text-not-in-its-own-unit-only", token=tok, slide=sl, **info)
+            _require_unless_known(ctx, holders == [sl - 1], "slide-text-not-in-its-own-unit-only",
+                                  _fallback_first_slide_class(units, holders), token=tok, slide=sl, **info)
     for j, c in enumerate(conts):
         if c == "1":
             tok = f"S{j}"
             holders = [k for k, u in enumerate(units) if tok in u[1]]
             if K >= 1:
-                ctx.require(all(k == j for k in holders), "slide-text-not-in-its-own-unit-only",
-                            token=tok, slide=j + 1, **info)
+                _require_unless_known(ctx, all(k == j for k in holders), "slide-text-not-in-its-own-unit-only",
+                                      _fallback_first_slide_class(units, holders), token=tok, slide=j + 1, **info)
             else:
-                ctx.require(holders == [j], "slide-text-not-in-its-own-unit-only", token=tok, slide=j + 1, **info)
+                _require_unless_known(ctx, holders == [j], "slide-text-not-in-its-own-unit-only",
+                                      _fallback_first_slide_class(units, holders), token=tok, slide=j + 1, **info)
 
 
 def k3_helpers(ctx):
@@ -1128,7 +1130,16 @@ def k3_helpers(ctx):
             if tt is not None and _b(tt == TEXT_TYPE_NOTES):
                 continue
             holders = [k for k, u in enumerate(units) if tok in u[1].split("\n")]
-            ctx.require(holders == [s], "slide-text-not-in-its-own-unit-only", token=tok, slide=s + 1, **info)
+            _require_unless_known(ctx, holders == [s], "slide-text-not-in-its-own-unit-only",
+                                  _fallback_first_slide_class(units, holders), token=tok, slide=s + 1, **info)
+
+
+def _fallback_first_slide_class(units, holders):
+    """signature of the raw-text fallback: the structured parse found no text, every text the
+    raw scan found sits on the first slide and all other slides are empty"""
+    if holders == [0] and len(units) >= 2 and all(not u[1] for u in units[1:]):
+        return "C03-ppt-raw-fallback-text-on-first-slide"
+    return None
 
 
 def _dup_class(nums):
